@@ -60,7 +60,7 @@ func simModfile() []string {
 type meta struct {
 	Name, Property, Doc, Level string
 	Quick, Thorough            int
-	Race                       bool
+	Race, RaceOnly             bool
 	Real, Stub                 []string
 }
 
@@ -476,11 +476,16 @@ func main() {
 		if n < 1 {
 			n = 1
 		}
-		jobs = append(jobs, job{m: m, bin: bin, runs: uint64(n)})
+		if !m.RaceOnly {
+			jobs = append(jobs, job{m: m, bin: bin, runs: uint64(n)})
+		}
 		if m.Race {
 			rn := n / 10
 			if rn < 1 {
 				rn = 1
+			}
+			if m.RaceOnly {
+				rn = n
 			}
 			jobs = append(jobs, job{m: m, race: true, bin: raceBin, runs: uint64(rn)})
 		}
